@@ -489,8 +489,19 @@ func skipCheck(c Case, logs []applied) (v kit.Verdict) {
 }
 
 func snapshot(c Case, m *msggen.Message, sub *twin) (v kit.Verdict) {
-	mv := messageview.New()
-	captured := true
+	mv, captured, claims, v := takeSnapshot(c, m, sub)
+	if !claims {
+		return v
+	}
+	return verifySnapshot(c, m, sub, mv, captured)
+}
+
+// takeSnapshot snapshots the subject. claims is false when nothing can be
+// said about the snapshot (error already reported, unspecified option match,
+// request of unknown length).
+func takeSnapshot(c Case, m *msggen.Message, sub *twin) (mv *messageview.MessageView, captured, claims bool, v kit.Verdict) {
+	mv = messageview.New()
+	captured = true
 	switch c.SnapSkip {
 	case "all":
 		mv.SkipBody(true)
@@ -498,12 +509,21 @@ func snapshot(c Case, m *msggen.Message, sub *twin) (v kit.Verdict) {
 	case "unless":
 		mv.SkipBodyUnlessContentType(c.SnapTypes...)
 		captured = false
+		unspecified := false
 		for _, ct := range c.SnapTypes {
 			if strings.HasPrefix(m.ContentType, ct) {
 				captured = true
 			} else if strings.HasPrefix(strings.ToLower(m.ContentType), strings.ToLower(ct)) {
-				return nil // whether this counts as a match is not specified: no snapshot claims
+				unspecified = true // whether this counts as a match is not specified: no snapshot claims
 			}
+		}
+		if unspecified && !captured {
+			if sub.res == nil {
+				mv.SnapshotRequest(sub.req)
+			} else {
+				mv.SnapshotResponse(sub.res)
+			}
+			return mv, false, false, nil
 		}
 	}
 	var err error
@@ -512,13 +532,16 @@ func snapshot(c Case, m *msggen.Message, sub *twin) (v kit.Verdict) {
 	} else {
 		err = mv.SnapshotResponse(sub.res)
 	}
-	shape := snapshotShape(m)
 	if err != nil {
-		return kit.Failf("C15/snapshot/"+shape+"/snapshot-error", "snapshot of a well-formed message failed: %v", err)
+		return mv, captured, false, kit.Failf("C15/snapshot/"+snapshotShape(m)+"/snapshot-error", "snapshot of a well-formed message failed: %v", err)
 	}
-	if c.Unknown {
-		return nil // no HTTP/1.x serialisation of a request of unknown length exists
-	}
+	// no HTTP/1.x serialisation of a request of unknown length exists
+	return mv, captured, !c.Unknown, nil
+}
+
+// verifySnapshot re-parses Reader() and compares it with the description.
+func verifySnapshot(c Case, m *msggen.Message, sub *twin, mv *messageview.MessageView, captured bool) (v kit.Verdict) {
+	shape := snapshotShape(m)
 	rd, err := mv.Reader()
 	if err != nil {
 		return kit.Failf("C15/snapshot/"+shape+"/reader-error", "Reader(): %v", err)
@@ -802,4 +825,4 @@ func TestForward(t *testing.T) {
 	propForward.Check(t, kit.N(5000, 30000))
 }
 
-func TestReplay(t *testing.T) { kit.Replay(t, propForward, propMatrix) }
+func TestReplay(t *testing.T) { kit.Replay(t, propForward, propMatrix, propSequence) }
